@@ -152,6 +152,16 @@ where
         μ: T,
         _scaling_strategy: ScalingStrategy,
     ) -> bool {
+        // z can land (numerically) on the boundary of the dual cone when it
+        // is pushed to very high accuracy.  Report a scaling failure rather
+        // than asserting, using the same measure ζ as update_dual_grad_H
+        let two: T = (2.).as_T();
+        let dim1 = self.dim1();
+        let phi = zip(&self.α, z).fold(T::one(), |phi, (&αi, &zi)| phi * (zi / αi).powf(two * αi));
+        if !(phi - z[dim1..].sumsq() > T::zero()) {
+            return false;
+        }
+
         // update both gradient and Hessian for function f*(z) at the point z
         self.update_dual_grad_H(z);
         self.data.μ = μ;
